@@ -41,7 +41,12 @@ func vfH_C17_zerowaiter() {
 	}
 	_, l0, w0 := sum()
 	vfAssert(l0 == 1 && w0 == uint32(W), "C17: counters differ from one hold and the queued requests")
+	preSnap := vfTakeSnap(env.manager(key))
 	env.unlock(0, env.newCmd(protocol.COMMAND_UNLOCK, key, vfLockId(1)))
+	// C04: the wake-up pass went on until the next queued request is not admissible (a request with Expried 0
+	// that was served holds nothing, so the one behind it is served too)
+	postSnap := vfTakeSnap(env.manager(key))
+	vfC04Quiescent(env, env.manager(key), &preSnap, &postSnap)
 	// census: who holds now
 	holders := uint32(0)
 	for _, h := range vfHolders(env.manager(key)) {
